@@ -2,6 +2,7 @@
 #include "../engine/ctx.hh"
 #include "../engine/gen_ta.hh"
 #include <vata/explicit_tree_aut.hh>
+#include <memory>
 
 const char* const harness::ID = "C12";
 
@@ -91,10 +92,22 @@ void harness::run_case(const eng::Raw& raw, eng::Ctx& ctx)
 	ctx.small_case(true);
 
 	ExplicitTreeAut aut;
+	// a reader keeps snapshots (copies) of the automaton alive along the history: the automaton under test then shares
+	// structure with them, which must not change what the five mutating calls do to it - nor the snapshots
+	std::unique_ptr<ExplicitTreeAut> snapshot;
+	std::set<MRule> snapModel;
+	std::set<StateType> snapFinals;
+	bool sawSnapshotWrite = false;
 	bool sawClearAfterAdd = false, sawDuplicate = false, sawEraseAfterAdd = false;
 	int stepNo = 0;
 	for (auto& s : plan) {
 		++stepNo;
+		if (s.fs.size() % 3 == 1 && (raw.empty() || raw[0][7] % 2)) {
+			eng::LibSection ls(ctx, "snapshot");
+			snapshot.reset(new ExplicitTreeAut(aut));
+			snapModel = model; snapFinals = finals;
+		}
+		if (snapshot && s.op == 0) sawSnapshotWrite = true;
 		{
 			eng::LibSection ls(ctx, "mutate");
 			switch (s.op) {
@@ -177,8 +190,15 @@ void harness::run_case(const eng::Raw& raw, eng::Ctx& ctx)
 			for (StateType q : POOL) if (aut.IsStateFinal(q) != (finals.count(q) > 0)) { ctx.fail("container:is-final", at + "IsStateFinal(" + std::to_string(q) + ") is wrong"); return; }
 			if (aut.AreTransitionsEmpty() != model.empty()) { ctx.fail("container:transitions-empty", at + "AreTransitionsEmpty is wrong"); return; }
 		}
+		if (snapshot) {
+			std::string d = diff(read_range(*snapshot), snapModel);
+			if (!d.empty()) { ctx.fail("container:snapshot-changed", at + "a copy taken earlier " + d); return; }
+			const auto& fs = snapshot->GetFinalStates();
+			if (std::set<StateType>(fs.begin(), fs.end()) != snapFinals) { ctx.fail("container:snapshot-changed", at + "final states of a copy taken earlier changed"); return; }
+		}
 		ctx.count("steps_checked");
 	}
+	if (sawSnapshotWrite) ctx.tag("write-while-a-snapshot-is-alive");
 	ctx.nontrivial((sawClearAfterAdd || sawEraseAfterAdd) && sawDuplicate);
 	if (sawClearAfterAdd) ctx.tag("clear-after-add");
 	if (sawEraseAfterAdd) ctx.tag("erase-finals-after-add");
